@@ -174,6 +174,8 @@ def loader_sections(ctx):
         for c in ([x for x in ast.walk(st.test) if isinstance(x, ast.Call)] if isinstance(st, ast.If) else []):
             if call_name(c) == '_load_from_file' and isinstance(c.args[0], ast.Subscript) and isinstance(const(c.args[0].slice), str):
                 fixed[const(c.args[0].slice)] = cur_path
+            if call_name(c) == '_load_from_file':
+                fixed.setdefault('paths', set()).add(cur_path)
     return secs, facts, loopvar, fixed
 
 
@@ -281,7 +283,7 @@ def r1_tag_chain(ctx, rule, scope='all'):
                         {'row': row}, None)
     # Markov: fixed path
     mpath = fixed.get('M')
-    if mpath != ('Omen', 'pcfg_omen_prob.txt'):
+    if mpath != ('Omen', 'pcfg_omen_prob.txt') and ('Omen', 'pcfg_omen_prob.txt') not in fixed.get('paths', ()):
         ok_all = False
         ctx.bad(rule, GIO + '_load_terminals', "grammar['M'] loaded from %s" % (mpath,), 'OMEN level probabilities live in '
                 'Omen/pcfg_omen_prob.txt', None, None)
@@ -297,6 +299,14 @@ def r2_mask_producer(ctx, rule):
     stores = stores_in(fn)
     # working string is the lower-cased section; words come from it
     ws = [nm for nm, lst in stores.items() if any(v is not None and U(v) == 'section[0].lower()' for s, v in lst)]
+    other_maps = [(nm, U(v)) for nm, lst in stores.items() for s, v in lst if v is not None and isinstance(v, ast.Call)
+                  and isinstance(v.func, ast.Attribute) and v.func.attr in ('casefold', 'upper', 'title', 'swapcase') and U(v.func.value) == 'section[0]']
+    if other_maps:
+        ctx.bad(rule, qual, 'alpha words normalised with %s' % other_maps[0][1],
+                "alpha values are stored through str.lower() and the guesser restores capitalisation by applying upper() per 'U' "
+                "mask character - the inverse of lower() only; casefold() additionally rewrites characters (ß -> ss, final sigma) "
+                "and changes lengths, so the stored word is not the password's word", None, fn)
+        return
     loops = [n for n in walk_local(fn) if isinstance(n, ast.For) and isinstance(n.iter, ast.Name) and n.iter.id == 'word_list']
     if len(loops) != 1 or not ws:
         ctx.unk(rule, qual, 'word loop / lower-cased working string not found')
@@ -424,15 +434,66 @@ def r3_mask_insertion(ctx, rule):
         ctx.ok(rule, qual, "C<n> inserted at i+1 after every A<n>, every element visited", facts)
 
 
+def r9_counted_value_is_segment(ctx, rule):
+    """What a detector reports as found (and the parser tallies) is the text of the segment it labelled."""
+    specs = [(DET + 'year_detection.py::detect_year', 'Y'), (DET + 'context_sensitive_detection.py::detect_context_sensitive', 'X'),
+             (DET + 'digit_detection.py::detect_digits', 'D')]
+    n = 0
+    for q, letter in specs:
+        fn = ctx.fn(q)
+        stores = stores_in(fn)
+        rets = [r for r in walk_local(fn) if isinstance(r, ast.Return) and isinstance(r.value, ast.Tuple) and U(r.value.elts[0]) == 'parsing']
+        segs = [t.elts[0] for t in ast.walk(fn) if isinstance(t, ast.Tuple) and len(t.elts) == 2
+                and ((isinstance(const(t.elts[1]), str) and const(t.elts[1]).startswith(letter))
+                     or (isinstance(t.elts[1], ast.BinOp) and const(t.elts[1].left) == letter))]
+        if not rets or not segs:
+            ctx.unk(rule, q, 'labelled segment / returned value not found')
+            continue
+        n += 1
+        found = rets[0].value.elts[1]
+        seg = segs[0]
+        fe, se = expand(fn, found, stores), expand(fn, seg, stores)
+        facts = {'segment': U(se), 'reported': U(fe)}
+        if U(fe) == U(se) or U(found) == U(seg) or U(fe) == "''.join(%s)" % U(se):
+            ctx.ok(rule, q, 'the reported value is the labelled slice itself', facts)
+            continue
+        # needle form: segment = S[i : i + len(r)], i = S.find(r), reported r
+        okk = False
+        if isinstance(seg, ast.Subscript) and isinstance(seg.slice, ast.Slice) and isinstance(found, ast.Name):
+            S = U(seg.value)
+            lo = seg.slice.lower
+            r = found.id
+            if lo is not None and isinstance(lo, ast.Name) and U(seg.slice.upper) == '%s + len(%s)' % (lo.id, r):
+                defs = [U(v) for s_, v in stores.get(lo.id, []) if v is not None]
+                Sdefs = [U(v) for s_, v in stores.get(S, []) if v is not None]
+                if defs == ['%s.find(%s)' % (S, r)] and all('lower' not in d and 'upper' not in d and 'casefold' not in d for d in Sdefs):
+                    okk = True
+                facts['index_definition'] = defs
+        if okk:
+            ctx.ok(rule, q, 'segment = S[i:i+len(r)] with i = S.find(r) on the same string: segment text == reported value r', facts)
+        else:
+            ctx.bad(rule, q, 'reported %s for segment %s' % (U(found), U(seg)),
+                    'the value that is tallied (and later generated) must be exactly the text of the labelled segment; if the '
+                    'match is found case-insensitively (or on another copy) the terminal list holds a different spelling than the '
+                    'password and the password is not reproduced', facts, rets[0])
+    ctx.floor(rule, DET, n, 3, 'detectors with a reported value')
+
+
 def _renorm(ctx, rule):
     from . import c14
     return c14.r2_renormalisation(ctx, rule)
 
 
+def _adoption(ctx, rule):
+    from . import c02
+    return c02.r1_adoption_kernel(ctx, rule)
+
+
 def rules(tier):
     return [('C03.R1', r1_tag_chain), ('C03.R2', r2_mask_producer), ('C03.R3', r3_mask_insertion),
             ('C03.R4', lambda c, r: c04.r3_mask_slices(c, r, strict_char_map=False)), ('C03.R5', c04.r2_structural_recursion), ('C03.R6', c04.r1_dispatch),
-            ('C03.R7', c01.r8_uniform_scale), ('C03.R8', _renorm)]
+            ('C03.R7', c01.r8_uniform_scale), ('C03.R8', _renorm),
+            ('C03.R9', r9_counted_value_is_segment), ('C03.R10', c01.r4_prob_pt_coupling), ('C03.R11', _adoption)]
 
 
 META = {
